@@ -91,4 +91,14 @@ CLAIMS.update({
               'backend plain, encrypted and reopened between every two requests; monitor mon_C09 demands a store answer whenever the spec premises hold.'),
         note=COMMON_NOTE + ' URI-key completeness is shown on concrete respellings and by the run, not as a general theorem; C14 covers the backends as maps.'),
 })
+CLAIMS.update({
+    'C14': dict(
+        text=('Theorems C14_base64_roundtrip, C14_key_from_file_name, C14_file_name_injective, C14_path_shape (a directory component is never '
+              'a file component: no key\'s file is a directory of another key\'s path; the empty key has a file name), C14_fs_refines_map (for every '
+              'sequence of Set/Get/Delete/Keys/Reopen over arbitrary byte-string keys and values the directory-tree model of fscache answers exactly '
+              'as a map; listings as sets), C14_get_after_set. The run executes generated operation sequences over adversarial key pools on memcache, '
+              'fscache and encrypted fscache with reopen, partly through the maintenance HTTP API, scribbling over every buffer, and compares with the '
+              'extracted tree model and with the map.'),
+        note=COMMON_NOTE + ' The kernel file system is assumed to behave as the tree model (mkdir/openat/rename/unlink); AES-GCM is the identity at this level (C17). Known finding F27 (API listing of non-UTF-8 keys) is reported as KNOWN-FINDING.'),
+})
 NOT_YET = {}
